@@ -1,13 +1,13 @@
 SPECIFICATION OptSpec
 CONSTANTS
-  MaxLen = 3
+  MaxLen = 2
   Kinds = {"S"}
   Smes = {FALSE}
   ExportEvery = TRUE
   OMss <- MC_OMss
   OWs <- MC_OWs
   OWin = {0, 2}
-  OLen = {0, 1, 3}
+  OLen = {0, 1, 2, 3}
   ODiff <- MC_ODiff
 VIEW OptView
 INVARIANTS OptImplSane OptExport OptReport
